@@ -93,8 +93,13 @@ def boolToXml (b : Bool) : Str := if b then litTrue else litFalse
 
 /-! ### enums: `klass(xml_value)` / `.value` over the list of literals of the class -/
 
+/-- position of the first literal equal to `s` -/
+def findLit : List Str → Str → Option Nat
+  | [], _ => none
+  | l :: ls, s => if l = s then some 0 else (findLit ls s).map (· + 1)
+
 def enumToPy (lits : List Str) (s : Str) : Except Err Nat :=
-  match lits.idxOf? s with
+  match findLit lits s with
   | some i => .ok i
   | none => .error .value
 
